@@ -70,6 +70,12 @@ const (
 	// iteration order".
 	c23KnownOrder = "c23-final-recheck-order-partial-handle"
 
+	// c23KnownForeignQueued is the signature of the finding "a confirmed leak queued while its Calico
+	// node was unknown survives the node's re-appearance as a non-Kubernetes node: the scan skips
+	// such a node (ErrorNotKubernetes) without clearing the queue, and the final re-validation
+	// still works with knode \"\"".
+	c23KnownForeignQueued = "c23-queued-leak-survives-non-kubernetes-node-skip"
+
 	// c23KnownStaleKnode is the signature of the finding "allocation.knode is only refreshed when the
 	// node is scanned; after a node re-registers under the same name a queued confirmed leak can
 	// still carry knode \"\", so the final re-validation treats a tunnel address as ownerless and
@@ -1305,6 +1311,7 @@ func c23Run(t *rapid.T, rec *ev.Recorder) {
 	knownAttrs := ev.Known(c23KnownAttrs)
 	knownOrder := ev.Known(c23KnownOrder)
 	knownStale := ev.Known(c23KnownStaleKnode)
+	knownForeign := ev.Known(c23KnownForeignQueued)
 	deletedNodes := map[string]bool{}
 	// hazards reports (and counts) the known-finding situations the next sync would run into.
 	hazards := func(full bool) bool {
@@ -1638,6 +1645,23 @@ func c23Run(t *rapid.T, rec *ev.Recorder) {
 					e.log("foreignNodeDel(%s)", cn)
 				}
 				continue
+			}
+			queued := false
+			for _, allocs := range e.c.allocationsByBlock {
+				for _, a := range allocs {
+					if a.node() == cn && a.confirmedLeak {
+						queued = true
+					}
+				}
+			}
+			if queued {
+				// The node name comes back as a non-Kubernetes node while leaks confirmed during
+				// its absence are still queued (their release failed).
+				e.classes["non-kubernetes-node-returns-with-queued-leaks"] = true
+				if knownForeign {
+					rec.Excluded(c23KnownForeignQueued)
+					continue
+				}
 			}
 			via := rapid.IntRange(0, 3).Draw(t, "deliveredBySyncer") != 0
 			e.foreignNodeAdd(cn, via)
@@ -2127,5 +2151,45 @@ func TestVerifC23RegressionStaleKnode(t *testing.T) {
 		if strings.Contains(f, "variant: ") {
 			t.Fatalf("finding reproduces:\n  %s", strings.Join(found, "\n  "))
 		}
+	}
+}
+
+// TestVerifC23RegressionForeignNodeQueuedLeak is the regression test (fixed in the repo) for the finding
+// c23-queued-leak-survives-non-kubernetes-node-skip: it FAILS while the finding reproduces.  A
+// Calico node without a Kubernetes orchRef (bm0) holds a tunnel address and a workload address.
+// Its node resource is deleted; the GC rightly confirms both as leaks (node unknown) but ReleaseIPs
+// fails; bm0 registers again (still not a Kubernetes node).  The scan now skips bm0
+// (ErrorNotKubernetes) but leaves the two confirmed leaks queued with knode "", and the final
+// re-validation releases the live node's tunnel address and its workload address.
+func TestVerifC23RegressionForeignNodeQueuedLeak(t *testing.T) {
+	ev.Quiet()
+	g := 2*time.Minute + 30*time.Second
+	e := c23NewEnv(false, &g)
+	w := e.w
+	e.nodeAdd("n0")
+	e.c.handleUpdate(bapi.InSync)
+	e.foreignNodeAdd("bm0", true)
+	b := &c23Block{CIDR: c23CIDR(0), K: 0, Aff: "bm0"}
+	w.blocks[b.CIDR] = b
+	b.Allocs[0] = &c23Alloc{IP: c23IP(0, 0), Handle: "vxlan-tunnel-addr-bm0", HasHandle: true, Seq: 1, Attrs: map[string]string{
+		ipam.AttributeNode: "bm0", ipam.AttributeType: ipam.AttributeTypeVXLAN}}
+	b.Allocs[1] = &c23Alloc{IP: c23IP(0, 1), Handle: "foreign-1", HasHandle: true, Seq: 1, Attrs: map[string]string{
+		ipam.AttributeNode: "bm0", ipam.AttributePod: "foreign-workload", ipam.AttributeNamespace: c23NS}}
+	w.touch(b)
+	e.deliver(len(w.events))
+	e.sync(true)
+	if e.releases != 0 {
+		t.Fatalf("HARNESS-GAP: scenario changed: the GC touched a live non-Kubernetes node before anything happened: %v", e.hist)
+	}
+	e.calicoNodeDel("bm0")
+	e.failMode = 2
+	e.sync(true) // node unknown: both confirmed, release fails
+	e.failMode = 0
+	pre := len(e.violations)
+	e.foreignNodeAdd("bm0", true)
+	e.sync(false)
+	e.sync(true)
+	if len(e.violations) > pre || pre > 0 {
+		t.Fatalf("finding reproduces:\n  %s\nhistory:\n  %s", strings.Join(e.violations, "\n  "), strings.Join(e.hist, "\n  "))
 	}
 }
